@@ -13,6 +13,7 @@ EXPLANATION = (
     "Equality of all query results before and after is not decided.")
 EXPLANATION += " Also decided: the backup path of every directory rebuild moves aside is cleared first (a directory cannot be renamed over a non-empty one: the second rebuild of a store would fail half-way), and nothing but a stale *.bak is ever removed."
 EXPLANATION += " Also decided: every LMDB environment rebuild opens is the returned store's or is explicitly closed on every path to Ok (one that is merely dropped stays in heed's process-wide cache and is handed to the next rebuild of the same backup path)."
+EXPLANATION += ' Also decided: the three marker/id lookups answer only from their tables (a process-local flag or cache does not survive reopen).'
 ASSUMPTIONS = []
 
 
@@ -21,5 +22,6 @@ def run(ctx):
     tables.rebuild_table_cover(ctx, s)
     tables.rebuild_backup(ctx, s)
     tables.marker_codec(ctx, s)
+    tables.lookups_answer_from_table(ctx, s)
     storage.append_index_commit_order(ctx, s, "pocket_db::Store::rebuild", loop=True)
     storage.reopen_validates_marker(ctx, s)
